@@ -64,11 +64,16 @@ func TestC13(t *testing.T) {
 			// crossing 65,535 needs the default / u16 limit (or wider) to be interesting
 			o.Dict = rapid.SampledFrom([]string{"", "u32", "u16", "none"}).Draw(t, "bigdict")
 		}
-		maxb := 40
+		minb, maxb := 3, 40
 		if big {
 			maxb = 6
 		}
-		c, _ := genOptionHistory(t, historyPlan{MinBatches: 3, MaxBatches: maxb, Big: big, Knobs: gen.InDomain()})
+		long := !big && thorough() && pct(t, "long", 2)
+		if long {
+			// "arbitrarily long streams": 100-250 batches whose id universe keeps growing
+			minb, maxb = 100, 250
+		}
+		c, _ := genOptionHistory(t, historyPlan{MinBatches: minb, MaxBatches: maxb, Big: big, Knobs: gen.InDomain()})
 		c.Options = o
 		res, err := RunStream(c, RunConfig{KeepBAR: true})
 		if err != nil {
@@ -85,6 +90,9 @@ func TestC13(t *testing.T) {
 		labels = append(labels, "max_dictionary="+bucket(maxd), "batches="+bucket(len(c.Batches)))
 		if big {
 			labels = append(labels, "history_crossing_65535")
+		}
+		if long {
+			labels = append(labels, "long_stream_100_to_250_batches")
 		}
 		over := res.Events.Total("overflow") + res.Events.Total("reset")
 		var shapes []string
